@@ -21,5 +21,6 @@ func removeWhitespace(data string) (string, bool, error) {
 		return r
 	}, data)
 
-	return transformedData, changed, nil
+	// strings.Map also rewrites invalid UTF-8 bytes, so compare the content as well
+	return transformedData, changed || transformedData != data, nil
 }
